@@ -30,6 +30,7 @@ import (
 	"time"
 
 	"github.com/TarsCloud/TarsGo/tars/util/gpool"
+	"github.com/TarsCloud/TarsGo/tars/util/rogger"
 
 	"verifharness/common"
 )
@@ -50,7 +51,7 @@ const admitsBudget = 400000
 
 // scenario is one configuration; it is also the `case` of a replay file.
 type scenario struct {
-	Kind     string   `json:"kind"` // drain | release | fill | fillrel | newpool
+	Kind     string   `json:"kind"` // drain | release | fill | fillrel | newpool | xport (transport level, see xport.go)
 	N        int      `json:"n"`
 	Q        int      `json:"q"`
 	Subs     int      `json:"subs"`               // submitter goroutines
@@ -63,9 +64,19 @@ type scenario struct {
 	Reps     int      `json:"reps,omitempty"`     // replay: repetitions against the implementation
 	History  []string `json:"history,omitempty"`  // the observed history (violations / divergences)
 	Mutation string   `json:"mutation,omitempty"` // mutant-history cases
+	// xport only
+	Proto string `json:"proto,omitempty"` // tcp | udp
+	Mode  string `json:"mode,omitempty"`  // plain | backlog
+	Burst int    `json:"burst,omitempty"` // gated requests sent before the gate opens / the shutdown starts
+	Late  int    `json:"late,omitempty"`  // requests sent after the server was marked closed
+	Conns int    `json:"conns,omitempty"` // tcp connections
 }
 
 func (sc scenario) String() string {
+	if sc.Kind == "xport" {
+		return fmt.Sprintf("xport %s %s n=%d q=%d burst=%d late=%d wave2=%d conns=%d dur=%s seed=%d", sc.Proto, sc.Mode, sc.N, sc.Q,
+			sc.Burst, sc.Late, sc.Per, sc.Conns, sc.Dur, sc.Seed)
+	}
 	return fmt.Sprintf("%s n=%d q=%d subs=%d per=%d dur=%s procs=%d rel=%d extra=%d seed=%d", sc.Kind, sc.N, sc.Q,
 		sc.Subs, sc.Per, sc.Dur, sc.Procs, sc.RelAfter, sc.Extra, sc.Seed)
 }
@@ -849,6 +860,9 @@ func main() {
 		if c.Kind == "newpool" {
 			reps = 1
 		}
+		if c.Kind == "xport" && c.Reps <= 0 {
+			reps = 12
+		}
 		if len(c.History) > 0 {
 			// the recorded history first: model verdict + history oracle (printed only: the verdict of a
 			// replay comes from re-executing the scenario against the current tree below)
@@ -874,6 +888,10 @@ func main() {
 		}
 	} else {
 		scs = genScenarios(o, rng)
+		if o.Extra == "xport-only" { // development aid: the transport stream alone (same PRNG position)
+			scs = nil
+		}
+		scs = append(scs, genXport(o, rng)...)
 		// NewPool with negative sizes
 		for _, a := range [][2]int{{-1, 1}, {1, -1}, {-3, -3}, {0, 0}, {2, 0}} {
 			scs = append(scs, scenario{Kind: "newpool", N: a[0], Q: a[1]})
@@ -881,9 +899,14 @@ func main() {
 	}
 
 	var pend []pending
+	var xs []scenario
 	hangs, bad := 0, 0
 	t0 := time.Now()
 	for _, sc := range scs {
+		if sc.Kind == "xport" {
+			xs = append(xs, sc) // run afterwards (concurrently; the pool scenarios count goroutines)
+			continue
+		}
 		if sc.Kind == "newpool" {
 			impl := func() (r string) {
 				defer func() {
@@ -979,11 +1002,56 @@ func main() {
 	}
 	implTime := time.Since(t0)
 
+	// transport-level stream
+	tx := time.Now()
+	if len(xs) > 0 {
+		res.Streams = append(res.Streams, "pool-transport")
+		rogger.SetLevel(rogger.OFF)
+		for i, out := range runXportAll(xs, hangTimeout) {
+			sc := xs[i]
+			withHist := sc
+			withHist.History = out.history
+			if out.aborted != "" {
+				res.Histogram["xport-aborted"]++
+				res.Note("transport scenario without verdict (%s): %s", out.aborted, sc)
+				continue
+			}
+			for _, v := range out.viols {
+				res.Violate(common.Violation{Signature: "C19:" + v.class + ":" + v.locus, What: v.what,
+					Case: common.Case{Stream: "pool-transport", Op: withHist, Impl: histKey(out.history), Note: v.what}})
+				if replay {
+					fmt.Printf("%s: VIOLATION %s:%s %s\n", sc, v.class, v.locus, v.what)
+				}
+			}
+			res.Count(sc.String()+"|"+histKey(out.history), "xport/"+sc.Proto+"/"+sc.Mode+"/n"+strconv.Itoa(sc.N), out.parsed > 0)
+			res.TracesValidated++
+			if out.high == int64(sc.N) {
+				res.Histogram["covered/xport-all-workers-busy"]++
+			}
+			if sc.Mode == "backlog" {
+				if sc.Q > 0 {
+					res.Histogram["covered/xport-shutdown-with-queued-handlers"]++
+				}
+				if out.late > 0 {
+					res.Histogram["covered/xport-request-read-after-server-closed/"+sc.Proto]++
+				}
+			}
+			if len(out.viols) == 0 {
+				pend = append(pend, pending{sc: withHist, history: out.history, expect: "ok", stream: "pool-transport"})
+			}
+		}
+	}
+	xportTime := time.Since(tx)
+
 	// correspondence: all histories through the model in one batch
 	t1 := time.Now()
 	var lines []string
 	for _, p := range pend {
-		lines = append(lines, fmt.Sprintf("admits %d %d %d %s", p.sc.N, p.sc.Q, admitsBudget, strings.Join(p.history, " ")))
+		budget := admitsBudget
+		if p.stream == "pool-transport" {
+			budget = admitsBudget / 8 // `budget` = inconclusive, counted in the histogram
+		}
+		lines = append(lines, fmt.Sprintf("admits %d %d %d %s", p.sc.N, p.sc.Q, budget, strings.Join(p.history, " ")))
 		if p.cross {
 			lines = append(lines, fmt.Sprintf("admits0 %d %d %d %s", p.sc.N, p.sc.Q, admitsBudget, strings.Join(p.history, " ")))
 		}
@@ -1019,7 +1087,7 @@ func main() {
 				}
 			}
 		}
-		if replay {
+		if replay || o.Extra == "xport-only" {
 			fmt.Printf("[%s %s] %s: %d events, model: %s (expected %s)\n", p.stream, p.sc.Mutation, p.sc, len(p.history), a, p.expect)
 		}
 		if verdict == "budget" {
@@ -1041,11 +1109,13 @@ func main() {
 			}
 		}
 	}
-	res.Note("implementation runs: %.1fs; model (admits) time: %.1fs; largest state set of an admitted history: %d",
-		implTime.Seconds(), time.Since(t1).Seconds(), maxStates)
+	res.Note("implementation runs: pool %.1fs, transport %.1fs (%d scenarios, concurrent); model (admits) time: %.1fs; largest state set of an admitted history: %d",
+		implTime.Seconds(), xportTime.Seconds(), len(xs), time.Since(t1).Seconds(), maxStates)
 	res.Rule = "cases = (scenario kind drain|release|fill|fillrel, workers N, queue capacity Q, submitters, jobs, duration class incl. zero, " +
 		"GOMAXPROCS, release point) executed on the real gpool; each observed history of visible events goes through the Lean LTS (admits); " +
-		"property-violating mutants of the observed histories must be rejected; non-trivial = distinct (scenario, history) with at least one job"
+		"property-violating mutants of the observed histories must be rejected; transport stream: real transport.TarsServer (TCP and UDP, MaxInvoke 1..4, " +
+		"QueueCap 0..16) with a gated stub protocol, bursts larger than the pool, plain operation and shutdown with a backlog plus a late request; " +
+		"non-trivial = distinct (scenario, history) with at least one job"
 	if err := res.Write(o.Out); err != nil {
 		panic(err)
 	}
